@@ -181,6 +181,7 @@ def strata():
                      # names drawn from the literals of the code under test
                      gen_cfg.model_and_spec(force=['dict_names', 'many_ports'], want_mixed=True),
                      gen_cfg.model_and_spec(force=['dict_names', 'deep_ns'], want_mc=True),
+                     gen_cfg.model_and_spec(force=['big'], want_mc=True, want_mixed=True),
                      gen_cfg.model_and_spec(force=['one_way_itf', 'many_ports'], prov_sem='MTS',
                                             want_mixed='MS'),
                      # inout formals on out events (accepted by the parser): compile-only oracle
